@@ -262,7 +262,9 @@ Definition run_c10 (input : list Z) : list Z :=
                                | Err e => [1; e]
                                | _ => [2]
                                end
-                        | Err e => [1; e]
+                        (* a refused validation records nothing: through Seeded's own validate the harness asks again with the
+                           same arguments and gets the same answer (the state is still None) *)
+                        | Err e => if mode <? 2 then [1; e; 1; e] else [1; e]
                         | Panic => [2]
                         | Fault => [3]
                         end in
